@@ -79,6 +79,7 @@ def op_library(tag):
         "declare_used": ["declare", "g2", "ryd_glob"],
         "slm_bad_dmm": ["config_slm", ["q0", "q1"], "dmm_7"],
         "dmap_bad": ["config_dmap", {"q0": 1.0}, "dmm_7"],
+        "dmap_taken": ["config_dmap", {"q1": 1.0}, "dmm_0"],
         "mag_zero": ["set_mag", [0.0, 0.0, 0.0]],
         "mag": ["set_mag", [1.0, 0.0, 2.0]],
         "measure": ["measure", "ground-rydberg"],
@@ -88,6 +89,7 @@ def op_library(tag):
 
 PREFIXES = {
     "pe": [],
+    "pslm": [["config_slm", ["q0"], "dmm_0"]],  # (no channel yet, so no mode of operation yet; dmm_0 is reserved for the mask)
     "p0": [["declare", "g", "ryd_glob"], ["declare", "l", "ryd_loc", "q0"]],
     "p1": [["declare", "g", "ryd_glob"], ["declare", "l", "ryd_loc", "q0"],
            ["add", "g", ["cp", S("pd0", "mult", clock=4, lo=8), 1.0, 0.0, 0.0]],
@@ -317,6 +319,22 @@ def h_readonly(shape):
                 return [("readonly:queries_answer", False)]
         elif what == "sample":
             pulser.sampler.sample(seq)
+        elif what == "nested_dict_slm":
+            # the nested dictionary the emulators consume, of a sequence with an SLM mask (XY: the mask is applied while the
+            # dictionary is built; Ising: through the DMM): the sequence - its slots' target sets, its qubits - is not touched
+            stubs.bind(inp, fixed=True)
+            obs = []
+            for mode in ("xy", "ising"):
+                s2 = l2.new_seq("mock")
+                s2.declare_channel("ch", "mw_global" if mode == "xy" else "rydberg_global")
+                s2.config_slm_mask(["q0"])
+                s2.add(Pulse.ConstantPulse(100, 1.0, 0.0, 0.0), "ch")
+                s2.add(Pulse.ConstantPulse(200, 0.5, 0.0, 0.0), "ch")
+                b2, q2 = l2.snapshot(s2), sorted(s2._qids)
+                for all_local in (False, True):
+                    pulser.sampler.sample(s2).to_nested_dict(all_local=all_local)
+                obs.append(("readonly:nested_dict_slm_%s" % mode, AND(l2.snap_equal(b2, l2.snapshot(s2)), sorted(s2._qids) == q2)))
+            return obs
         elif what == "sample_mod":
             pulser.sampler.sample(seq, modulation=True)
             pulser.sampler.sample(seq, modulation=True, extended_duration=seq.get_duration() + 20)
@@ -383,6 +401,9 @@ def kernels(tier):
     for pre in ("p1", "p2"):
         for a in names:
             ks.append(("atomic", dict(device="virt_maxseq", prefix=pre, ops=[a], kwmode=True)))
+    for pre, ops in (("pslm", ["dmap_taken"]), ("pe", ["dmap_bad"]), ("pslm", ["dmap_bad"]), ("pe", ["slm_bad_dmm"])):
+        for dev in ("mock", "digital"):  # (reusable channels or not: on the second the mask's DMM is no longer available)
+            ks.append(("atomic", dict(device=dev, prefix=pre, ops=ops)))
     for ops in (["mag_zero"], ["mag_zero", "mag_zero"], ["mag", "mag_zero"], ["declare_used", "mag_zero"], ["mag_zero", "declare_used"]):
         ks.append(("atomic", dict(device="mock", prefix="pe", ops=ops)))
     for pre in ("p0", "p1"):
@@ -392,9 +413,9 @@ def kernels(tier):
     for pre, call in (("p2", "own_add_in_eom"), ("p2", "own_enable_eom_twice"), ("p0", "own_add_eom_outside"), ("p1", "own_add_eom_outside"),
                       ("p1", "own_target_global"), ("p1", "own_delay_badchannel_kw")):
         ks.append(("unknown_var", dict(device="virt_maxseq", prefix=pre, call=call, own_var=False)))
-    for what in ("str", "get_duration", "estimate", "phase_ref", "queries", "queries_param_slm", "sample", "sample_mod", "build_copy", "to_abstract_repr", "serialize"):
+    for what in ("str", "get_duration", "estimate", "phase_ref", "queries", "queries_param_slm", "sample", "nested_dict_slm", "sample_mod", "build_copy", "to_abstract_repr", "serialize"):
         for eom in (False, True):
-            if what == "sample" and eom:
+            if what in ("sample", "nested_dict_slm") and eom:
                 continue  # EOM needs modulation; sampling needs a concrete timeline (no stubbed fall times)
             ks.append(("readonly", dict(device=("virt_nomod" if what == "sample" else "virt_maxseq"), what=what, eom=eom)))
     for via in ("build", "switch_register"):
